@@ -465,7 +465,10 @@ func (v *Value) toGoValueInterval(rootValues []*Value, checkCircularReference bo
 		return array, nil
 	case ValueObj:
 		obj := make(map[string]interface{})
-		for k, objVal := range *v.Obj {
+		// in sorted order, so that which member's error is reported doesn't depend
+		// on go's random map order
+		for _, k := range v.sortedKeys() {
+			objVal := (*v.Obj)[k]
 			val, err := objVal.Value.toGoValueInterval(append(rootValues, v), true)
 			if err != nil {
 				return nil, err
